@@ -20,7 +20,7 @@ use vecdb::{
 
 use crate::util::{Scratch, fnv, parse_flags};
 
-pub trait Elem: Copy + PartialEq + std::fmt::Debug + Send + Sync + 'static {
+pub trait Elem: Copy + PartialEq + PartialOrd + std::fmt::Debug + Send + Sync + 'static {
     fn enc(x: u64, j: u64) -> Self;
     fn dec(self) -> (u64, u64);
     const SIZE: usize;
@@ -93,8 +93,19 @@ impl Elem for f32 {
 type R<T> = vecdb::Result<T>;
 
 /// One concrete vector type under test.
-pub trait VK: Sized {
+pub trait VK: Sized + ReadableVec<usize, <Self as VK>::T> {
     type T: Elem;
+    type RO: ReadableVec<usize, <Self as VK>::T>;
+    fn ro(&self) -> Self::RO;
+    fn boxed(&self) -> vecdb::ReadableBoxedVec<usize, <Self as VK>::T>;
+    /// (fold_stored_mmap, fold_stored_io) over [from, to), when the type offers them
+    fn stored_scans(&self, _from: usize, _to: usize) -> Option<(Vec<<Self as VK>::T>, Vec<<Self as VK>::T>)> {
+        None
+    }
+    /// VecReader::try_get(i) (raw formats)
+    fn point_read(&self, _i: usize) -> Option<Option<<Self as VK>::T>> {
+        None
+    }
     const RAW: bool;
     const CMP: bool;
     fn open(db: &Database, name: &str, k: u16, version: u32) -> R<Self>;
@@ -120,7 +131,7 @@ pub trait VK: Sized {
     fn view(&self) -> Vec<Option<Self::T>>;
     fn holes(&self) -> Vec<usize>;
     fn stamp(&self) -> u64;
-    fn region_name(&self) -> String;
+    fn rname(&self) -> String;
 }
 
 macro_rules! common_vk {
@@ -158,8 +169,14 @@ macro_rules! common_vk {
         fn stamp(&self) -> u64 {
             u64::from(AnyStoredVec::stamp(self))
         }
-        fn region_name(&self) -> String {
+        fn rname(&self) -> String {
             AnyStoredVec::region(self).meta().id().to_string()
+        }
+        fn ro(&self) -> Self::RO {
+            vecdb::StoredVec::read_only_clone(self)
+        }
+        fn boxed(&self) -> vecdb::ReadableBoxedVec<usize, Self::T> {
+            vecdb::ReadableCloneableVec::read_only_boxed_clone(self)
         }
         fn open(db: &Database, name: &str, k: u16, version: u32) -> R<Self> {
             let o: ImportOptions = (db, name, Version::new(version)).into();
@@ -172,9 +189,17 @@ macro_rules! raw_vk {
     ($ty:ident, $t:ty) => {
         impl VK for $ty<usize, $t> {
             type T = $t;
+            type RO = <Self as vecdb::StoredVec>::ReadOnly;
             const RAW: bool = true;
             const CMP: bool = false;
             common_vk!();
+            fn stored_scans(&self, from: usize, to: usize) -> Option<(Vec<$t>, Vec<$t>)> {
+                Some((self.fold_stored_mmap(from, to, vec![], |mut a, v| { a.push(v); a }),
+                      self.fold_stored_io(from, to, vec![], |mut a, v| { a.push(v); a })))
+            }
+            fn point_read(&self, i: usize) -> Option<Option<$t>> {
+                Some(self.reader().try_get(i))
+            }
             fn update(&mut self, i: usize, v: $t) -> R<()> {
                 self.update_at(i, v)
             }
@@ -197,6 +222,7 @@ macro_rules! cmp_vk {
     ($ty:ty, $t:ty, $cmp:expr) => {
         impl VK for $ty {
             type T = $t;
+            type RO = <Self as vecdb::StoredVec>::ReadOnly;
             const RAW: bool = false;
             const CMP: bool = $cmp;
             common_vk!();
@@ -376,6 +402,7 @@ impl Out {
 }
 
 struct Cfg {
+    reads: bool,
     special: bool,
     k: u16,
     block: usize,
@@ -395,6 +422,9 @@ struct Stats {
     pages_checked: u64,
     pages_equal_model: u64,
     pages_differ_model: u64,
+    read_calls: u64,
+    read_states: u64,
+    accesses: u64,
 }
 
 fn run_one<V: VK>(steps: &[Value], cfg: &Cfg, st: &mut Stats, bidx: usize) {
@@ -468,7 +498,7 @@ fn run_one<V: VK>(steps: &[Value], cfg: &Cfg, st: &mut Stats, bidx: usize) {
         };
         // faults act on the change directory of the real vector
         if op == "fault_delete" || op == "fault_corrupt" {
-            let dir = scratch.path().join("changes").join(vr.region_name());
+            let dir = scratch.path().join("changes").join(vr.rname());
             let f = dir.join(args[0].to_string());
             if op == "fault_delete" {
                 std::fs::remove_file(&f).expect("fault: record file present");
@@ -561,7 +591,7 @@ fn run_one<V: VK>(steps: &[Value], cfg: &Cfg, st: &mut Stats, bidx: usize) {
         }
         // C07: page index of compressed vectors, evaluated on the real bytes
         if V::CMP && cfg.check_pages && matches!(out, Out::Ok) && matches!(op, "write" | "commit" | "reimport") {
-            let rn = vec.as_ref().unwrap().region_name();
+            let rn = vec.as_ref().unwrap().rname();
             if let Some((pages, rlen)) = real_pages(db.as_ref().unwrap(), &rn) {
                 st.pages_checked += 1;
                 let stored = o.len * b - 0; // after a successful write everything is stored
@@ -600,6 +630,90 @@ fn run_one<V: VK>(steps: &[Value], cfg: &Cfg, st: &mut Stats, bidx: usize) {
         if cut {
             st.cut_permitted += 1;
             break;
+        }
+        if cfg.reads && prop_ok && impl_ok {
+            let vr = vec.as_ref().unwrap();
+            let slen = step["slen"].as_u64().unwrap_or(0);
+            let dlen = step["dlen"].as_u64().unwrap_or(0);
+            let expanded = slen > dlen;
+            let hist = |si: usize| json!(steps[..=si].iter().map(short).collect::<Vec<_>>());
+            // accesses made by the operation itself (change-record construction, page decoding)
+            let (n0, oob0) = rawdb::verif::access_tap_take();
+            st.accesses += n0;
+            let view = vr.view();
+            let mut rep = crate::reads::ReadReport { calls: 0, bad: vec![] };
+            let mut cursor_bad = 0u64;
+            crate::reads::check_reads::<V::T, V>(vr, "rw.", &view, b, o.holes.is_empty(), &mut rep, &mut cursor_bad);
+            let (n1, oob1) = rawdb::verif::access_tap_take();
+            st.accesses += n1;
+            let all_stored = matches!(op, "write" | "commit" | "reimport") && matches!(out, Out::Ok) && o.holes.is_empty();
+            let ro = vr.ro();
+            let bx = vr.boxed();
+            if all_stored {
+                let mut cb = 0u64;
+                crate::reads::check_reads::<V::T, V::RO>(&ro, "ro.", &view, b, true, &mut rep, &mut cb);
+                crate::reads::check_reads_dyn::<V::T>(&*bx, "boxed.", &view, b, &mut rep);
+                let len = view.len();
+                for &from in &crate::reads::boundaries(len, b) {
+                    for &to in &crate::reads::boundaries(len, b) {
+                        let want: Vec<u64> = if from.min(len) < to.min(len) { view[from.min(len)..to.min(len)].iter().map(|x| x.unwrap().bits()).collect() } else { vec![] };
+                        match catch_unwind(AssertUnwindSafe(|| vr.stored_scans(from, to))) {
+                            Ok(Some((m, i))) => {
+                                rep.calls += 2;
+                                if m.iter().map(|x| x.bits()).collect::<Vec<_>>() != want { rep.bad.push(("rw.fold_stored_mmap".into(), from, to, "differs".into())); }
+                                if i.iter().map(|x| x.bits()).collect::<Vec<_>>() != want { rep.bad.push(("rw.fold_stored_io".into(), from, to, "differs".into())); }
+                            }
+                            Ok(None) => {}
+                            Err(_) => rep.bad.push(("rw.fold_stored_*".into(), from, to, "panicked".into())),
+                        }
+                    }
+                    match catch_unwind(AssertUnwindSafe(|| vr.point_read(from))) {
+                        Ok(Some(g)) => {
+                            rep.calls += 1;
+                            if g.map(|x| x.bits()) != view.get(from).copied().flatten().map(|x| x.bits()) { rep.bad.push(("reader.try_get".into(), from, from + 1, "differs".into())); }
+                        }
+                        Ok(None) => {}
+                        Err(_) => rep.bad.push(("reader.try_get".into(), from, from + 1, "panicked".into())),
+                    }
+                }
+            } else {
+                // not comparable with the reference (buffered / edited state): exercised for the access tap only
+                let _ = catch_unwind(AssertUnwindSafe(|| { let l = ro.len(); let _ = ro.collect_range_at(0, l); let _ = ro.fold_range_at(0, l, 0u64, |a, _v: V::T| a + 1); let _ = bx.collect_range_dyn(0, l);
+                    if l > 0 { let _ = vr.point_read(l - 1); } }));
+            }
+            let (n2, oob2) = rawdb::verif::access_tap_take();
+            st.accesses += n2;
+            st.read_calls += rep.calls;
+            st.read_states += 1;
+            if cursor_bad > 0 {
+                // position-addressed reads on a raw vector with deleted slots (D5)
+                note_known(st, &["D5".to_string()], steps, si);
+            }
+            if !rep.bad.is_empty() {
+                st.violations.push(json!({"behaviour": bidx, "step": si, "op": op, "args": args, "reads": true,
+                    "what": format!("read path disagrees with the reference: {:?}", &rep.bad[..rep.bad.len().min(3)]),
+                    "observed": obs_to_json(&o), "steps": hist(si)}));
+                break;
+            }
+            if (!oob0.is_empty() || !oob1.is_empty()) && !dev.is_empty() {
+                // the behaviour has taken known deviations (stale undo baseline etc.): their consequence, not a new finding
+                note_known(st, &dev, steps, si);
+            } else if !oob0.is_empty() || !oob1.is_empty() {
+                st.violations.push(json!({"behaviour": bidx, "step": si, "op": op, "args": args, "access": true,
+                    "what": format!("read outside the region's valid data: {:?}", oob0.iter().chain(oob1.iter()).take(2).collect::<Vec<_>>()),
+                    "steps": hist(si)}));
+                break;
+            }
+            if !oob2.is_empty() {
+                if expanded {
+                    // read-only clone / point reader while the logical length exceeds what is on disk (D9)
+                    note_known(st, &["D9".to_string()], steps, si);
+                } else {
+                    st.violations.push(json!({"behaviour": bidx, "step": si, "op": op, "args": args, "access": true,
+                        "what": format!("read-only clone read outside the region's valid data: {:?}", &oob2[..oob2.len().min(2)]), "steps": hist(si)}));
+                    break;
+                }
+            }
         }
         prev = o;
     }
@@ -742,7 +856,9 @@ pub fn main(args: &[String]) -> i32 {
     }
     let size = match ty { "u8" | "i8" => 1, "u16" | "i16" => 2, "u32" | "i32" | "f32" => 4, _ => 8 };
     let special = f.contains_key("special");
-    let cfg = Cfg { special, k, block, check_pages: true, per_page_real: 16 * 1024 / size };
+    let reads = f.contains_key("reads");
+    if reads { rawdb::verif::access_tap_start(); }
+    let cfg = Cfg { reads, special, k, block, check_pages: true, per_page_real: 16 * 1024 / size };
     let st = match (format, ty) {
         ("bytes", "u32") => run_all::<BytesVec<usize, u32>>(&lines, &cfg),
         ("bytes", "u64") => run_all::<BytesVec<usize, u64>>(&lines, &cfg),
@@ -782,6 +898,7 @@ pub fn main(args: &[String]) -> i32 {
         "behaviours": st.behaviours, "steps": st.steps, "distinct_nontrivial": st.nontrivial.len(),
         "ops": st.ops, "cut_permitted": st.cut_permitted,
         "known": st.known.iter().map(|(d, (c, h))| json!({"dev": d, "count": c, "history": h})).collect::<Vec<_>>(),
+        "read_calls": st.read_calls, "read_states": st.read_states, "accesses_checked": st.accesses,
         "pages_checked": st.pages_checked, "pages_equal_model": st.pages_equal_model, "pages_differ_model": st.pages_differ_model,
         "violations": st.violations,
     });
